@@ -54,6 +54,12 @@ def extractDominated (S : Nat) (l : VList) : VList :=
   let r := extractDominatedArr S l.toArray l.length
   r.1.toList.take r.2
 
+/-- multiset inclusion of whole entries (the driver's "moved whole" clause on the implementation's kept prefix):
+    `out` can be obtained from `inp` by deleting entries -/
+def subMultiset : List VEntry → List VEntry → Bool
+  | [], _ => true
+  | e :: out, inp => if inp.contains e then subMultiset out (inp.erase e) else false
+
 /-! ## Pruner::operator() with the LP as an oracle -/
 
 /-- `findBestAtSimplexCorner(s, begin, end)` over positions `[0, en)` of the array: running best with veccmp tie-break -/
@@ -221,6 +227,15 @@ def pbviRun (m : Pomdp) (beliefs : List (Nat → Rat)) : Nat → VF
     let v := pbviRun m beliefs h          -- bound once: the compiled driver must not recompute the prefix three times per level
     v ++ [pbviStep m beliefs (vlist v (v.length - 1))]
 
+/-- `PBVI::operator()(model, beliefs, v)` with a warm start: `if (v.size() == 0) v = makeValueFunction(S)`, then every
+    timestep projects `v.back()` and appends -/
+def pbviRunFrom (m : Pomdp) (beliefs : List (Nat → Rat)) (v0 : VF) : Nat → VF
+  | 0 => if v0.isEmpty then zeroVF m.S else v0
+  | h+1 =>
+    let v := pbviRunFrom m beliefs v0 h
+    -- `projecter(v.back())`; a source reading `v[timestep-1]` instead flips `Gen.C04.pbviProjectsBack`
+    v ++ [pbviStep m beliefs (vlist v (if Gen.C04.pbviProjectsBack then v.length - 1 else h))]
+
 /-! ## PERSEUS::operator(): the belief sweep (belief list = parameter) -/
 
 /-- `PERSEUS::crossSum(projs, beliefs, oldV)` before the final `extractDominated`: a belief already improved by the
@@ -361,7 +376,11 @@ def witnessLoop2 (S : Nat) (wit : VList → List Rat → Option (Nat → Rat)) (
       match wit st.U v with
       | some b =>
         let e := crossSumBestAtBeliefRow S b row a
-        witnessLoop2 S wit row a f (addVariations row e { st with U := st.U ++ [e] })
+        -- `if (std::any_of(U[a], sameValues)) { agenda_.pop_back(); continue; }` (present iff `Gen.C04.witnessSkipsKnown`)
+        if Gen.C04.witnessSkipsKnown && st.U.any (fun u => u.values == e.values) then
+          witnessLoop2 S wit row a f { st with agenda := st.agenda.dropLast }
+        else
+          witnessLoop2 S wit row a f (addVariations row e { st with U := st.U ++ [e] })
       | none => witnessLoop2 S wit row a f { st with agenda := st.agenda.dropLast }
 
 /-- `addDefaultEntry` + loop for one action: returns `U[a]` -/
